@@ -29,6 +29,8 @@ def gen_tm(rnd, n):
                 ops.append(["check", l, t])
             else:
                 ops.append(["mark", rnd.randrange(nl + 1)])
+            # another TicketMachine object of the same process (another event loop's) is used in between: the two have nothing to do with each other
+            if rnd.random() < 0.15: ops.append([rnd.choice(["decoy_take", "decoy_mark"]), rnd.randrange(nl + 1)])
         cases.append({"op": "tm", "ops": ops})
     return cases
 
@@ -47,16 +49,19 @@ def run_tm(case):
     from simpleline.event_loop.ticket_machine import TicketMachine
     lines = {}                                                     # line number -> the object used as line id (classes, as the loop uses them)
     def lid(n): return lines.setdefault(n, type("Line%d" % n, (), {}))
-    m = TicketMachine(); out = []
+    m = TicketMachine(); out = []; decoy = TicketMachine()
     for o in case["ops"]:
         try:
-            if o[0] == "take": out.append(m.take_ticket(lid(o[1])))
+            if o[0] == "decoy_take": decoy.take_ticket(lid(o[1])); out.append("decoy")
+            elif o[0] == "decoy_mark": decoy.mark_line_to_go(lid(o[1])); out.append("decoy")
+            elif o[0] == "take": out.append(m.take_ticket(lid(o[1])))
             elif o[0] == "check":
                 r = m.check_ticket(lid(o[1]), o[2]); out.append(r if isinstance(r, bool) else repr(r))
             else: out.append(m.mark_line_to_go(lid(o[1])))
         except KeyError: out.append("KeyError")
     rev = {v: k for k, v in lines.items()}
-    state = {"counter": m._counter, "lines": sorted([rev[k], sorted([t, bool(b)] for t, b in d.items())] for k, d in m._lines.items())}
+    # (a line key this case never used can only come from state shared with another TicketMachine object: shown as -1)
+    state = {"counter": m._counter, "lines": sorted([rev.get(k, -1), sorted([t, bool(b)] for t, b in d.items())] for k, d in m._lines.items())}
     return {"out": out, "state": state}
 
 
@@ -65,6 +70,7 @@ def monitor_tm(case, obs):
     line's mark; tickets are never handed out twice"""
     taken = {}; seen = set()
     for o, r in zip(case["ops"], obs["out"]):
+        if o[0].startswith("decoy"): continue
         if o[0] == "take":
             if r in seen: return "ticket %r was handed out twice" % (r,)
             seen.add(r); taken[r] = {"line": o[1], "marked": False, "done": False}
@@ -301,6 +307,9 @@ def compare_obj(case, impl, model):
             if a["heap"] is not None and a["heap"] != b["heap"]:
                 return "op #%d %r: heap array of the implementation %r / of the model %r" % (k, case["ops"][k], a["heap"], b["heap"])
         return None
+    if case["op"] == "tm":
+        keep = [i for i, o in enumerate(case["ops"]) if not o[0].startswith("decoy")]
+        impl = dict(impl, out=[impl["out"][i] for i in keep]); case = dict(case, ops=[case["ops"][i] for i in keep])
     if impl != model:
         k = next((i for i, (a, b) in enumerate(zip(impl["out"], model["out"])) if a != b), None)
         if k is not None: return "op #%d %r: implementation %r / model %r" % (k, case["ops"][k], impl["out"][k], model["out"][k])
@@ -332,7 +341,11 @@ def install(g, ops):
             return old(case, *a)
         g[name] = w
     wrap("run_impl", lambda c: json.loads(json.dumps(RUN[c["op"]](c))))
-    wrap("model_case", lambda c: {k: v for k, v in c.items() if k not in ("cc", "prio_property")})
+    def mcase(c):
+        d = {k: v for k, v in c.items() if k not in ("cc", "prio_property")}
+        if c.get("op") == "tm": d["ops"] = [o for o in c["ops"] if not o[0].startswith("decoy")]
+        return d
+    wrap("model_case", mcase)
     old_mi = g.get("model_input")
     def model_input(case, obs):
         # (the dialogs' model case is made by the real-side runner: the help text is what read() returned, the character classes cover the model's own literals)
